@@ -51,6 +51,12 @@ Theorem C01_local_equals_plain_timed : forall (P : list op) (xs : list val) (r :
 Proof. exact ptimed_pipe_sound. Qed.
 Print Assumptions C01_local_equals_plain_timed.
 
+(* the two plain models are consistent: flattening the timed semantics gives plain_pipe *)
+Theorem C01_plain_models_agree : forall (P : list op) (xs ys : list val) (r : timed),
+  plain_pipe P xs = Some ys -> ptimed_pipe P xs = Some r -> ys = concat (fst r) ++ snd r.
+Proof. exact plain_models_agree. Qed.
+Print Assumptions C01_plain_models_agree.
+
 Example C01_example_tee :
   ptimed_pipe [OTee Zip [[OFilter FIsOdd]; [OScan A2Add (VInt 0) TInt false None]]; OMap (FNth 1%nat)]
               [VInt 1; VInt 2; VInt 3]
